@@ -28,7 +28,7 @@ RUNS = {"quick": 256, "thorough": 12000, "thorough_s": 400}
 CHUNK = 4
 RUN_TIMEOUT = 90.0
 RULE = ("seeded cover-labelled networks of 1-6 motifs (K2-K4, C4, C5, diamond, paths) glued at single vertices, tree-like "
-        "and with motif-level loops, 2..18 vertices, 12% with two vertices of one motif labelled by different ints of equal hash, in a quarter of the networks 1-3 (or n+1) vertices that belong to NO motif "
+        "and with motif-level loops, 2..18 vertices, 12% with two vertices of one motif labelled by different ints of equal hash, 15% with every edge's label written differently (equivalent text), in a quarter of the networks 1-3 (or n+1) vertices that belong to NO motif "
         "(degree zero; empty product = 1), labels in the documented key-[vertices]-[edges]-id form with "
         "scheduler-permuted vertex numbering, member order and edge insertion order (= message update schedule); "
         "iterations in 1..40; histories of 2-6 theoretical(phi) queries in arbitrary phi order (0, 1, grid values, "
